@@ -130,6 +130,23 @@ int main(void) {
       rc = Atomic_Factors(atoi(tok[1]), dbl(tok[2]), dbl(tok[3]), dbl(tok[4]), &f0, &fp, &fpp, ep);
       val = fabs(f0) + fabs(fp) + fabs(fpp); isnum = 1;
     }
+    else if (!strcmp(op, "bfill") && nt == 2) {
+      /* fill the BUILT-IN crystal collection with renamed copies of Si until it refuses, then n more refused additions: what a
+         successful addition keeps is owned by the collection; a REFUSED addition must leave no block behind (rc = successes) */
+      int n = atoi(tok[1]); long leaked = 0; Crystal_Struct *src = Crystal_GetCrystal("Si", NULL, NULL);
+      for (int i = 0, refused = 0; src && i < 600 + n && refused < n; i++) {
+        char nm[32]; snprintf(nm, sizeof nm, "Fill%04d", i);
+        Crystal_Struct *c = Crystal_MakeCopy(src, NULL); free(c->name); c->name = strdup(nm);
+        long b0 = live_blocks; xrl_error *e2 = NULL;
+        int ok = Crystal_AddCrystal(c, NULL, &e2);
+        if (ok) rc++; else { refused++; }
+        if (e2) xrl_clear_error(&e2);
+        if (!ok) leaked += live_blocks - b0;
+        Crystal_Free(c);
+      }
+      Crystal_Free(src);
+      printf("%ld d=%ld e=0", rc, leaked); tail(0, 0.0); continue;
+    }
     else if (!strcmp(op, "clist")) { int n = 0; char **l = Crystal_GetCrystalsList(NULL, &n, ep); rc = n; free_list(l, n); }
     else if (!strcmp(op, "ainit") && nt == 2) {
       if (arr) { printf("bad-op\n"); continue; }
